@@ -288,6 +288,25 @@ def check_C14(chk):
         c, r = bad[0]
         chk.unproved("correspondence TlsCheck.check_script: messages / results differ from Tls.ipc_send on %d of %d programs" % (len(bad), len(todo)),
                      {"serializer_program": c["body"], "model_term": c["term"], "kinds": c["kinds"], "pre": c["pre"], "observed": r and r["result"]})
+    # sends refused by the OS (receiver gone), small and multi-packet, carrying senders, a moved receiver and a region; sends whose
+    # serialisation fails after embedding: nothing of them may be retained (res driver scenarios shared with C11)
+    rnames = ["send_closed_att", "send_closed_big_att", "ser_fail_att"]
+    rrecs, _, rrc, rerr = C.run_harness(bins["default"], "res", ["scen name=%s n=%d" % (s, 20) for s in rnames], shim=False, timeout=300)
+    rgot = {r.get("name"): r for r in rrecs if r.get("kind") == "scen"}
+    for sname in rnames:
+        r = rgot.get(sname)
+        why = None
+        if r is None:
+            why = "scenario %s did not complete (rc=%s): %s" % (sname, rrc, rerr[-300:])
+        elif r.get("notes"):
+            why = "scenario %s: %s" % (sname, r["notes"][:3])
+        elif r["fds_after"] != r["fds_before"] or r.get("maps_after") != r.get("maps_before"):
+            why = ("scenario %s x20: what the refused / failed sends embedded is still held afterwards: descriptors %s -> %s, mappings %s -> %s"
+                   % (sname, r["fds_before"], r["fds_after"], r.get("maps_before"), r.get("maps_after")))
+        if why:
+            fails.append((None, r, why))
+            chk.failing_input(why, {"scenario": sname, "record": r}, key="c14res:%s" % sname)
+    cov["refused_send_scenarios"] = sorted(rgot)
     # receive side: a receive-and-decode issued from inside another value's Deserialize (model: TlsRecv)
     nlines, ncases = [], []
     for i in range(400 if thorough else 60):
